@@ -466,19 +466,44 @@ func ReachingStore(v ssa.Value) ssa.Value {
 			start = i
 		}
 	}
-	for hops := 0; hops < 6; hops++ {
-		for k := start - 1; k >= 0; k-- {
+	// the unique store that reaches the load on every backward path (joins
+	// are followed; a path that reaches the entry, a second distinct store, a
+	// call that could write the cell through a closure, or a search beyond 64
+	// blocks gives up)
+	var found *ssa.Store
+	fail := false
+	seen := map[*ssa.BasicBlock]bool{}
+	var walk func(b *ssa.BasicBlock, from int)
+	walk = func(b *ssa.BasicBlock, from int) {
+		if fail {
+			return
+		}
+		for k := from - 1; k >= 0; k-- {
 			if st, ok := b.Instrs[k].(*ssa.Store); ok && st.Addr == cell {
-				return st.Val
+				if found != nil && found != st {
+					fail = true
+				}
+				found = st
+				return
 			}
 		}
-		if len(b.Preds) != 1 {
-			return nil
+		if len(b.Preds) == 0 || len(seen) > 64 {
+			fail = true
+			return
 		}
-		b = b.Preds[0]
-		start = len(b.Instrs)
+		for _, p := range b.Preds {
+			if seen[p] {
+				continue
+			}
+			seen[p] = true
+			walk(p, len(p.Instrs))
+		}
 	}
-	return nil
+	walk(b, start)
+	if fail || found == nil {
+		return nil
+	}
+	return found.Val
 }
 
 // SameValue reports that x denotes value v: directly, after resolving
